@@ -3,7 +3,7 @@
 //! model supplies a fresh PRNG value to each `in`.
 
 use crate::trapemu::{self, Event, K};
-use crate::util::{Args, Report, Rng, J};
+use crate::util::{catch_msg, Args, Report, Rng, J};
 use x86_64::instructions::port::{Port, PortReadOnly, PortWriteOnly};
 
 fn evs_json(evs: &[Event]) -> J {
@@ -67,7 +67,7 @@ fn judge_write(rep: &mut Report, kind: &str, width: u8, port: u16, value: u64, e
     }
 }
 
-macro_rules! one {
+macro_rules! one_inner {
     ($rep:expr, $t:ty, $w:expr, $port:expr, $val:expr) => {{
         let port: u16 = $port;
         let val: u64 = $val;
@@ -95,17 +95,60 @@ macro_rules! one {
     }};
 }
 
+/// the body of `one_inner!` under catch_unwind: a panic anywhere in constructing or using a port object is a violation
+macro_rules! one {
+    ($rep:expr, $t:ty, $w:expr, $port:expr, $val:expr) => {{
+        let port: u16 = $port;
+        let val: u64 = $val;
+        let rep: &mut Report = $rep;
+        let res = catch_msg(|| one_inner!(&mut *rep, $t, $w, port, val));
+        if let Err(m) = res {
+            trapemu::arm(false);
+            rep.violation(&format!("Port<u{}>|panic-in-constructor-or-access|{}", $w * 8, if port as u32 + $w as u32 > 0xffff { "top-of-io-space" } else { "other-port" }), J::obj(vec![("port", J::hex(port as u64)), ("panic", J::s(m))]));
+        }
+        let res2 = catch_msg(|| {
+        // reads whose result is discarded, and repeated reads in one scope, are still one instruction each
+        let mut p: Port<$t> = Port::new(port);
+        let mut pr: PortReadOnly<$t> = PortReadOnly::new(port);
+        let (_, evs) = trapemu::trapped(|| unsafe {
+            let _ = p.read();
+            let _ = pr.read();
+        });
+        rep.eval();
+        if evs.len() != 2 || evs.iter().any(|e| e.kind != K::In || e.n != port as u32 || e.width != $w) {
+            rep.violation(&format!("Port<u{}>::read|discarded-read-not-executed-exactly-once", $w * 8), J::obj(vec![("port", J::hex(port as u64)), ("events", evs_json(&evs))]));
+        }
+        let ((a, b, c), evs) = trapemu::trapped(|| unsafe {
+            let a = p.read();
+            let b = p.read();
+            p.write(a);
+            let c = p.read();
+            (a, b, c)
+        });
+        rep.eval();
+        let kinds: Vec<K> = evs.iter().map(|e| e.kind).collect();
+        if kinds != vec![K::In, K::In, K::Out, K::In] || a as u64 != evs[0].val || b as u64 != evs[1].val || c as u64 != evs[3].val || evs[2].val != a as u64 {
+            rep.violation(&format!("Port<u{}>|repeated-accesses-merged-or-reordered", $w * 8), J::obj(vec![("port", J::hex(port as u64)), ("events", evs_json(&evs))]));
+        }
+        });
+        if let Err(m) = res2 {
+            trapemu::arm(false);
+            rep.violation(&format!("Port<u{}>|panic-in-constructor-or-access|{}", $w * 8, if port as u32 + $w as u32 > 0xffff { "top-of-io-space" } else { "other-port" }), J::obj(vec![("port", J::hex(port as u64)), ("panic", J::s(m))]));
+        }
+    }};
+}
+
 macro_rules! eq_checks {
     ($rep:expr, $t:ty, $a:expr, $b:expr) => {{
         let (a, b): (u16, u16) = ($a, $b);
         $rep.eval();
         let exp = a == b;
-        let ok = (Port::<$t>::new(a) == Port::<$t>::new(b)) == exp
+        let ok = crate::util::catch(|| (Port::<$t>::new(a) == Port::<$t>::new(b)) == exp
             && (PortReadOnly::<$t>::new(a) == PortReadOnly::<$t>::new(b)) == exp
             && (PortWriteOnly::<$t>::new(a) == PortWriteOnly::<$t>::new(b)) == exp
             && (Port::<$t>::new(a).clone() == Port::<$t>::new(a))
             && (PortReadOnly::<$t>::new(a).clone() == PortReadOnly::<$t>::new(a))
-            && (PortWriteOnly::<$t>::new(a).clone() == PortWriteOnly::<$t>::new(a));
+            && (PortWriteOnly::<$t>::new(a).clone() == PortWriteOnly::<$t>::new(a))).unwrap_or(false);
         if !ok {
             $rep.violation("PartialEq|not-equal-iff-same-port-number", J::obj(vec![("a", J::hex(a as u64)), ("b", J::hex(b as u64))]));
         }
@@ -116,6 +159,19 @@ pub fn run(a: &Args, rep: &mut Report) {
     trapemu::install();
     let mut r = Rng::derive(a.seed, "c18", a.shard);
     trapemu::regs().io_state = r.next();
+    // an in/out that faults while the monitor is not armed was moved out of the call it belongs to
+    crate::util::fault_means_if(
+        "C18",
+        "port-instruction-executed-outside-its-call(hoisted-merged-or-reordered)".to_string(),
+        J::s("an in/out instruction faulted while no port call was being monitored"),
+        |b| {
+            let mut i = 0;
+            while i < 3 && (b[i] == 0x66 || b[i] & 0xf0 == 0x40) {
+                i += 1;
+            }
+            matches!(b[i], 0xec..=0xef | 0x6c..=0x6f)
+        },
+    );
     // exhaustive in the port and width dimensions (sharded by port)
     let stride = if a.thorough() { 1 } else { 1 };
     let mut port = a.shard as u32;
@@ -163,6 +219,7 @@ pub fn run(a: &Args, rep: &mut Report) {
         eq_checks!(rep, u16, p, q);
         eq_checks!(rep, u32, p, q);
     }
+    crate::util::fault_means_nothing();
     rep.count("traps", trapemu::TRAPS.load(core::sync::atomic::Ordering::Relaxed));
     if trapemu::overflowed() {
         rep.inconclusive = Some("event log overflow".into());
